@@ -10,7 +10,7 @@ CLAIMS = {
            'sources (generated table, pins of the hook arithmetic), the hook bookkeeping (forward counter, prefix-add accumulation, promotion) is a proved state machine (uses_then_promote), and the Linear / RNNLinear / Embedding / EmbeddingBag / Conv1d samplers are run on small-integer tensors against the formulas evaluated on Z in Coq '
            '(equality). The property itself is tested on composed architectures (mlp rank 2-4, batch-second, conv1d-3d with stride / padding / same / dilation / groups, norms, Embedding with '
            'padding, EmbeddingBag (sum / mean / max, repeated indices, padding index), DP recurrent layers padded / packed, DP attention, custom layer, tied + frozen) x hooks / functorch / ew x mean / sum x batch 0-4 '
-           'with a generic cotangent, against autograd on each sample alone. Not proved: autograd, functorch, ExpandedWeights, unfold, F.*_norm, EmbeddingBag mode max (piecewise linear; oracle only). Four repaired defects, two recorded findings '
+           'with a generic cotangent, against autograd on each sample alone. unfold2d\'s sliding-window view (generated strides) is proved to read the tap locations of the gather-layer model for ANY memory layout of the padded input (and the strides hard-coded before fix 45a22fa are refuted). Not proved: autograd, functorch, ExpandedWeights, torch\'s own unfold (Conv1d / Conv3d), F.*_norm, EmbeddingBag mode max (piecewise linear; oracle only). Eleven repaired defects, three recorded findings '
            '(packed-unsorted recurrent row order; torch ExpandedWeights padding row).'),
  },
  'C14': {
